@@ -240,11 +240,50 @@ def generate(rng, prop, tier):
     if d["control"]:
         u = d["control"][0]
         ops.append({"op": "case", "faults": [{"kind": "pnoise_missing", "at": u}, {"kind": "pnoise_foreign_add", "at": u}]})
-    cfg = {"cse": rng.random() < 0.5, "python_config_as_dict": rng.random() < 0.3}
-    return {"config": cfg, "model": d, "ops": ops, "faults": []}
+    cfg = {"cse": rng.random() < 0.5, "python_config_as_dict": rng.random() < 0.3,
+           # history before the cases: the one ui.Model object of the valid definition (compiled first, case 0) is handed to the
+           # entry points again whenever a fault leaves the model part untouched (a user editing sensors/noise of a model)
+           "reuse_model_object": rng.random() < 0.5,
+           # ... and something else happened in this process first: a fit that failed and was caught by the caller
+           "prelude": rng.choice([None, None, "failed_fit", "ok_fit"])}
+    return {"config": cfg, "model": d, "ops": ops, "faults": [p_ for p_ in [cfg["prelude"]] if p_] + (["model_object_reused"] if cfg["reuse_model_object"] else [])}
 
 
 # --------------------------------------------------------------------------- execution
+def _prelude_fit(base, kind):
+    """a fit of the valid definition through the scikit-learn adapter that fails (the caller catches the library's
+    MinimizationFailure) or succeeds, before any case: whatever it leaves behind in the process must not switch checks off"""
+    import numpy as np
+
+    from fsim.worlds.estimator import MinimizeSeam
+
+    try:
+        from formak import python
+
+        b = models.build(base)
+        if not b["sensor_models"]:
+            return "skipped_no_sensor"
+        est = python.SklearnEKFAdapter.Create(b["model"], b["process_noise"], b["sensor_models"], b["sensor_noises"], b["calibration_map"], config=python.Config(common_subexpression_elimination=False))
+        width = len(base["control"]) + sum(len(sd["readings"]) for sd in base["sensors"].values())
+        X = np.array([[0.1 * ((3 * i + 7 * j) % 11) - 0.5 for j in range(width)] for i in range(4)], dtype=float)
+        had = hasattr(python, "minimize")
+        seam = MinimizeSeam(getattr(python, "minimize", None))
+        seam.mode = "fail_after:1" if kind == "failed_fit" else "early_stop:1"
+        if had:
+            python.minimize = seam
+        try:
+            with contextlib.redirect_stdout(io.StringIO()), contextlib.redirect_stderr(io.StringIO()):
+                est.fit(X)
+            return "fit_returned"
+        except Exception as e:  # noqa: BLE001
+            return "fit_raised_" + type(e).__name__
+        finally:
+            if had:
+                python.minimize = seam.real
+    except Exception as e:  # noqa: BLE001 - the prelude is history, not the subject
+        return "prelude_error_" + type(e).__name__
+
+
 def _objects(d):
     """Build python objects of the (possibly invalid) definition WITHOUT validating anything."""
     state = models.container(d["containers"]["state"], [Symbol(n) for n in d["state"]])
@@ -279,6 +318,11 @@ def execute(schedule) -> Result:
     cfg = schedule["config"]
     base = schedule["model"]
     res.log.append("model " + models.digest(base))
+    if cfg.get("prelude"):
+        res.stats["fault:prelude_" + cfg["prelude"]] += 1
+        res.stats["probe:prelude_" + _prelude_fit(base, cfg["prelude"])] += 1
+    model_part = lambda d_: json.dumps([d_[k_] for k_ in ("state", "control", "calibration", "state_model", "containers", "dt")])  # noqa: E731
+    valid_model = None
     for ci, op in enumerate(schedule["ops"]):
         d = json.loads(json.dumps(base))
         for f in op["faults"]:
@@ -301,6 +345,12 @@ def execute(schedule) -> Result:
             continue
         if not v["model"]:
             res.stats["probe:invalid_model_reached_compile"] += 1
+        if cfg.get("reuse_model_object"):
+            if not op["faults"]:
+                valid_model = model
+            elif valid_model is not None and model_part(d) == model_part(base):
+                model = valid_model  # the very object that was compiled successfully before
+                res.stats["fault:model_object_reused"] += 1
         pcfg = {"common_subexpression_elimination": cfg["cse"]} if cfg["python_config_as_dict"] else python.Config(common_subexpression_elimination=cfg["cse"])
         ccfg = cpp.Config(common_subexpression_elimination=cfg["cse"])
         entries = [
